@@ -1,4 +1,6 @@
-"""Fragment descriptors for py2lean (tie T1).  One entry per generated Lean definition."""
+"""Fragment descriptors for py2lean (tie T1).  One entry per generated Lean definition.
+Further descriptors are collected from tools/targets.d/*.py (each defines FILES with the same layout;
+entries for an existing generated module are appended to it)."""
 INT, OPT, BOOL = "Int", "Option Int", "Bool"
 
 SL = "sparse/numba_backend/_slicing.py"
@@ -59,3 +61,21 @@ FILES = {
         ],
     },
 }
+
+
+def _collect():
+    import importlib.util
+    from pathlib import Path
+    for p in sorted((Path(__file__).resolve().parent / "targets.d").glob("*.py")):
+        spec = importlib.util.spec_from_file_location(f"targets_d_{p.stem}", p)
+        m = importlib.util.module_from_spec(spec)
+        spec.loader.exec_module(m)
+        for mod, d in getattr(m, "FILES", {}).items():
+            if mod in FILES:
+                assert FILES[mod]["file"] == d["file"], f"{mod}: different source file"
+                FILES[mod]["targets"] += d["targets"]
+            else:
+                FILES[mod] = d
+
+
+_collect()
